@@ -140,8 +140,10 @@ class Subroutine:
         assert self.app_id is not None
         # The integer values are what is checked and what is encoded
         # (an int subclass can carry its value in `__int__`)
-        app_id = int(self.app_id)
-        netqasm_version = tuple(int(part) for part in self.netqasm_version)
+        app_id = encoding.to_int(self.app_id)
+        netqasm_version = tuple(
+            encoding.to_int(part) for part in self.netqasm_version
+        )
         encoding.assert_fits(app_id, encoding.APP_ID)
         for version_part in netqasm_version:
             encoding.assert_fits(version_part, encoding.IMMEDIATE)
